@@ -256,7 +256,10 @@ def decide(prop, tier, seed):
         import witness as wit
         for f in violations:
             w = None
-            try: w = wit.search(prop, f)
+            if f.get("kani_playback"):
+                w = dict(found=True, kind="kani-concrete-playback", test=f["kani_playback"])
+            try:
+                if w is None: w = wit.search(prop, f)
             except Exception as e: w = None; f["witness_error"] = str(e)
             path = write_replay(prop, f, w)
             replay_paths.append(path)
